@@ -79,6 +79,13 @@ def run_case(rec: Recorder, case: dict[str, typing.Any]) -> None:
             pool: typing.Any
             if case["scheme"] == "http":
                 pool = urllib3.HTTPConnectionPool("t.test", 80, maxsize=1, retries=False, **pool_kw)
+            elif case["scheme"] == "manager":
+                # one PoolManager that has already been asked for this host with other pool-level timeouts: the pool that
+                # serves this configuration must be governed by this configuration
+                pm = urllib3.PoolManager(maxsize=1, retries=False)
+                for prior in case.get("prior", []):
+                    pm.connection_from_url("http://t.test/", pool_kwargs={"timeout": mk_timeout(prior)})
+                pool = pm.connection_from_url("http://t.test/", pool_kwargs=pool_kw)
             elif case["scheme"] == "tunnel":
                 # https destination behind an http proxy: the dial (to the proxy) and the CONNECT exchange happen in
                 # _prepare_proxy, before the per-request clock starts
@@ -272,6 +279,27 @@ def run_shard(ctx: Ctx, rec: Recorder) -> None:
                             case = {"scheme": scheme, "pool_timeout": other, "plan": plan}
                         rec.case(["grid", spec, cd, sd, scheme, placement])
                         run_case(rec, case)
+    # the same grid through a PoolManager that already holds pools for the host with timeouts that agree with this one on
+    # some of (total, connect, read) and differ on the rest
+    for T, C, R in itertools.product(VALS, VALS, VALS):
+        spec = {"total": T, "connect": C, "read": R}
+        num = lambda v: v if isinstance(v, (int, float)) else None  # noqa: E731
+        eff_c = min([x for x in (num(C), num(T)) if x is not None], default=None)
+        priors = [
+            {"total": UNSET, "connect": eff_c if eff_c is not None else UNSET, "read": R},  # same connect bound, no total
+            {"total": 10 if T != 10 else 2, "connect": C, "read": R},                        # only total differs
+            {"total": T, "connect": C, "read": 2 if R != 2 else 10},                         # only read differs
+            {"total": T, "connect": 2 if C != 2 else 10, "read": R},                         # only connect differs
+        ]
+        for cd in (0, 1):
+            idx += 1
+            if not ctx.mine(idx) or (idx // ctx.nshards) % stride:
+                continue
+            plan = [{"connect_dur": cd, "send_dur": 0.2}, {"connect_dur": cd, "send_dur": 0, "resp_dur": 0.4}]
+            case = {"scheme": "manager", "pool_timeout": spec, "prior": [p for p in priors if p != spec], "plan": plan}
+            rec.case(["manager-prior", spec, cd])
+            rec.mon("manager_prior_pools")
+            run_case(rec, case)
     rec.exhaustive_parts.append(f"(total, connect, read) in {VALS}^3 x connect durations {CONNECT_DUR} x send duration 0/0.2 x http/https x placement pool/request/both, two requests each, strided 1/{stride}")
     # legacy number form and response durations
     for v in (0.5, 2, 10, None, 3):
